@@ -5,6 +5,7 @@ import someip.header as H
 import someip.sd as SD
 import someip.service as S
 from contracts import looplib as LL
+from contracts.common import check_frame
 from contracts import spec_header as SH
 from contracts import spec_sd as SS
 
@@ -102,6 +103,13 @@ class EWorld:
         )
 
 
+def same_events(got, events):
+    """the round's events reach the per-endpoint notification as they were requested: the
+    same sequence object, or a re-iterable copy with the same contents (not a one-shot
+    iterator that the first endpoint would use up)"""
+    return got is events or (isinstance(got, (list, tuple)) and list(got) == list(events))
+
+
 def _gen_bytearray(vc, name):
     return bytearray(vc.bytes(name))
 
@@ -161,8 +169,10 @@ def _drive_single(vc, w, ep, events):
     everything collected goes to the endpoint's address iff there is anything to send"""
     log = []
     vc.stash("ns.world", w)
+    heap = vc.snapshot(group=w.group, svc=w.svc)
     o = vc.outcome(vc.drive, vc.body(S.SimpleEventgroup._notify_single)(w.group, ep, events, "test"), log)
     vc.check(o.kind != "raise", "_notify_single.never_raises")
+    check_frame(vc, heap, "_notify_single", ("svc.session_storage.outgoing",))
     if vc.native:
         return o
     init = vc.stashed("ns.init")
@@ -219,7 +229,9 @@ def ob_subscribe_unsubscribe(vc):
     vc.assume(ep not in w.group.subscribed_endpoints)
     n_before = len(w.group.subscribed_endpoints)
     n_tasks = len(w.loop.tasks)
+    heap = vc.snapshot(group=w.group, svc=w.svc)
     vc.body(S.SimpleEventgroup.subscribe)(w.group, ep)
+    check_frame(vc, heap, "subscribe", ("group.subscribed_endpoints*",))
     vc.check(ep in w.group.subscribed_endpoints and w.group.has_clients.is_set(), "subscribe.joins")
     vc.check_eq(len(w.group.subscribed_endpoints), n_before + 1, "subscribe.others_stay_subscribed")
     vc.check_eq(len(w.loop.tasks), n_tasks + 1, "subscribe.one_initial_notification_task")
@@ -229,6 +241,7 @@ def ob_subscribe_unsubscribe(vc):
         vc.check_eq(info[0], "someip.service.SimpleEventgroup._notify_single", "subscribe.initial_task_notifies_one_endpoint")
         vc.check(info[1][1] is ep or info[2].get("endpoint") is ep, "subscribe.initial_notification_to_the_new_subscriber_only")
     vc.body(S.SimpleEventgroup.unsubscribe)(w.group, ep)
+    check_frame(vc, heap, "unsubscribe", ("group.subscribed_endpoints*",))
     vc.check(ep not in w.group.subscribed_endpoints, "unsubscribe.leaves")
     vc.check_eq(len(w.group.subscribed_endpoints), n_before, "unsubscribe.others_stay_subscribed")
     vc.check_eq(w.group.has_clients.is_set(), n_before > 0, "unsubscribe.flag_cleared_iff_nobody_left")
@@ -252,9 +265,11 @@ def ob_notify_once(vc):
     w = EWorld(vc)
     events = [vc.int("event", 0, 0x7FFF)]
     n_tasks = len(w.loop.tasks)
+    heap = vc.snapshot(group=w.group, svc=w.svc)
     vc.body(S.SimpleEventgroup.notify_once)(w.group, events)
     if not w.group.has_clients.is_set():
         vc.cover("nobody")
+        check_frame(vc, heap, "notify_once", ())
         vc.check_eq(len(w.loop.tasks), n_tasks, "notify_once.no_subscribers_nothing_scheduled")
         vc.check_eq(len(w.sent), 0, "notify_once.no_subscribers_nothing_sent")
         return
@@ -263,7 +278,8 @@ def ob_notify_once(vc):
         return
     info = vc.coro_info(w.loop.tasks[n_tasks].coro)
     vc.check_eq(info[0], "someip.service.SimpleEventgroup._notify_all", "notify_once.round_task_notifies_all")
-    vc.check(info[2].get("events") is events, "notify_once.round_with_the_requested_events")
+    vc.check(same_events(info[2].get("events"), events), "notify_once.round_with_the_requested_events")
+    check_frame(vc, heap, "notify_once", ())
 
 
 def ob_notify_all(vc):
@@ -283,17 +299,19 @@ def ob_notify_all(vc):
         members = set(w.group.subscribed_endpoints)
         vc.drive(w.group._notify_all(events, "test"), log)
         vc.check_eq(sorted([repr(e) for e, _ in started]), sorted([repr(e) for e in members]), "_notify_all.one_notification_per_subscribed_endpoint")
-        vc.check(all(ev is events for _, ev in started), "_notify_all.with_the_rounds_events")
+        vc.check(all(same_events(ev, events) for _, ev in started), "_notify_all.with_the_rounds_events")
         return
+    heap = vc.snapshot(group=w.group, svc=w.svc)
     o = vc.outcome(vc.drive, vc.body(S.SimpleEventgroup._notify_all)(w.group, events, "test"), log)
     vc.check(o.kind != "raise", "_notify_all.never_raises")
+    check_frame(vc, heap, "_notify_all", ())
     if vc.stashed("na.entering"):
         vc.cover("endpoint")
         post = vc.stashed("na.post")
         info = vc.coro_info(post["$elt"])
         vc.check_eq(info[0], "someip.service.SimpleEventgroup._notify_single", "_notify_all.one_notification_per_subscribed_endpoint")
         vc.check(info[1][1] is post["ep"], "_notify_all.addressed_to_that_endpoint")
-        vc.check(info[2].get("events") is events, "_notify_all.with_the_rounds_events")
+        vc.check(same_events(info[2].get("events"), events), "_notify_all.with_the_rounds_events")
         vc.check(post["ep"] in w.group.subscribed_endpoints, "_notify_all.only_subscribed_endpoints")
     else:
         vc.cover("round-started")
@@ -310,7 +328,9 @@ def ob_cyclic_notify(vc):
     rounds = vc.stub(w.group, "_notify_all", _fake_round)
     log = []
     vc.arm_cut(S.SimpleEventgroup.cyclic_notify, 0)
+    heap = vc.snapshot(group=w.group, svc=w.svc)
     o = vc.outcome(vc.drive, vc.body(S.SimpleEventgroup.cyclic_notify)(w.group, interval), log)
+    check_frame(vc, heap, "cyclic_notify", ())
     vc.check(o.kind == "cut", "cyclic_notify.keeps_running")
     vc.check_eq(log, [("sleep", interval)], "cyclic_notify.one_interval_before_the_round")
     vc.check_eq(len(rounds), 1, "cyclic_notify.one_round_per_interval")
@@ -341,7 +361,9 @@ def ob_client_subscribed(vc):
     vc.assume(w.eps[0] not in w.group.subscribed_endpoints)
     before = len(w.group.subscribed_endpoints)
     n_tasks = len(w.loop.tasks)
+    heap = vc.snapshot(group=w.group, svc=w.svc)
     o = vc.outcome(vc.body(S.SimpleService.client_subscribed), w.svc, sub, vc.opaque("source", "addr"))
+    check_frame(vc, heap, "client_subscribed", ("group.subscribed_endpoints*",))
     if shape == "one" and known:
         vc.cover("accepted")
         vc.check(o.kind == "ret", "client_subscribed.accepted")
@@ -360,7 +382,9 @@ def ob_client_unsubscribed(vc):
     vc.assume(w.eps[0] in w.group.subscribed_endpoints)
     n_before = len(w.group.subscribed_endpoints)
     sub = SD.EventgroupSubscription(service_id=w.svc.service_id, instance_id=w.svc.instance_id, major_version=w.svc.version_major, id=w.group.id, counter=0, ttl=3, endpoints=frozenset([w.eps[0]]))
+    heap = vc.snapshot(group=w.group, svc=w.svc)
     o = vc.outcome(vc.body(S.SimpleService.client_unsubscribed), w.svc, sub, vc.opaque("source", "addr"))
+    check_frame(vc, heap, "client_unsubscribed", ("group.subscribed_endpoints*",))
     vc.check(o.kind == "ret", "client_unsubscribed.returns")
     vc.check(w.eps[0] not in w.group.subscribed_endpoints, "client_unsubscribed.endpoint_removed")
     vc.check_eq(w.group.has_clients.is_set(), n_before > 1, "client_unsubscribed.flag_cleared_iff_nobody_left")
